@@ -22,7 +22,9 @@ from classy_blocks.construct.curves.interpolated import LinearInterpolatedCurve,
 
 RULE = (
     "Point sets are random walks (3-12 points, 4-12 for splines; step lengths spread over a factor of up to 20, three "
-    "levels of turning) at scales 0.1-100; Line / Circle (rim perpendicular to a non-unit normal, full or clipped "
+    "levels of turning) at scales 0.1-100 or small in absolute units (1e-2, 1e-3, 3e-4, 1e-4; shortest spacing 1 x "
+    "scale >= 1000 TOL), plus (closest / edge cells) unit-size piecewise-linear curves with a fine detail: a fillet of "
+    "radius 0.005-0.02 through 20-120 points (segments down to 6e-5); Line / Circle (rim perpendicular to a non-unit normal, full or clipped "
     "bounds) / helix / twisted-cubic analytic curves in random frames. Parameters are drawn uniformly, at the bounds and "
     "at the parameters of defining points, in either order. Queries are a curve point plus an offset of <= 5 % of the "
     "local point spacing (near) or 0.5-3 curve lengths (far, counted only). References are written in the harness: "
@@ -58,7 +60,9 @@ TWO_PI = 2 * math.pi
 
 _unit = st.floats(-1.0, 1.0)
 _vec = st.tuples(_unit, _unit, _unit).map(list)
-_scale = st.floats(-1.0, 2.0).map(lambda u: 10.0**u)
+# model size: 0.1 ... 100, or small in absolute units (mm-scale geometry given in metres); the shortest point spacing is
+# 1 x scale, i.e. >= 1e-4 = 1000 TOL
+_scale = st.one_of(st.floats(-1.0, 2.0).map(lambda u: 10.0**u), st.sampled_from([1.0, 1e-2, 1e-3, 3e-4, 1e-4]))
 
 
 def _normalised(v, fallback):
@@ -95,6 +99,24 @@ def point_curve(draw, kinds=("linear", "spline")):
         spec["equalize"] = draw(st.sampled_from([True, False]))
     spec["points"] = draw(point_set(4 if kind == "spline" else 3))
     return spec
+
+
+@st.composite
+def detail_curve(draw):
+    """A piecewise-linear curve of size ~1 with a finely resolved detail: two straight legs joined by a fillet of radius
+    0.005-0.02 through 20-120 points (segments of 6e-5 ... 1.6e-3, i.e. >= 600 TOL), in a random frame."""
+    r = draw(st.floats(0.005, 0.02))
+    m = draw(st.integers(20, 120))
+    legs = [draw(st.floats(0.3, 1.0)), draw(st.floats(0.3, 1.0))]
+    n_leg = [draw(st.integers(1, 3)), draw(st.integers(1, 3))]
+    fr = draw(frame())
+    rot = rodrigues(_normalised(fr["axis"], [0, 0, 1]), fr["angle"])
+    pts = [[-legs[0] * (1 - i / n_leg[0]), 0.0, 0.0] for i in range(n_leg[0])]
+    pts += [[r * math.sin(a), r * (1 - math.cos(a)), 0.0] for a in np.linspace(0, math.pi / 2, m + 1)]
+    pts += [[r, r + legs[1] * (i + 1) / n_leg[1], 0.0] for i in range(n_leg[1])]
+    pts = np.array(pts) @ rot.T + np.array(fr["origin"])
+    return {"type": "linear", "equalize": draw(st.sampled_from([True, False])), "detail": {"r": r, "m": m},
+            "points": [[float(x) for x in q] for q in pts]}
 
 
 @st.composite
@@ -247,6 +269,18 @@ def size_of(spec) -> float:
         return polyline(spec["points"])
     b0, b1 = bounds_of(spec)
     return spec["scale"] * max(1.0, abs(b1 - b0))
+
+
+def size_labels(spec):
+    """absolute size classes (the library's tolerances are absolute: TOL = 1e-7)"""
+    size = size_of(spec)
+    out = ["size<1e-2" if size < 1e-2 else ("size<1" if size < 1 else "size>=1")]
+    if "points" in spec:
+        seg = np.linalg.norm(np.diff(np.array(spec["points"]), axis=0), axis=1)
+        out.append("shortest-segment<3e-4" if seg.min() < 3e-4 else "shortest-segment>=3e-4")
+    if "detail" in spec:
+        out.append("fine-detail")
+    return out
 
 
 def spacing_ratio(spec) -> float:
@@ -678,7 +712,7 @@ def check_closest_function(case, ctx: Ctx) -> None:
     n_min = len(cs.minima(q, b0, b1, keep=40))
     ctx.nt(spacing_ratio(spec) > 2)
     ctx.label("near", "type=" + spec["type"] + ("/eq" if spec.get("equalize") else ""),
-              "unimodal" if n_min == 1 else "multimodal", "frac=%g" % case["query"]["frac"],
+              "unimodal" if n_min == 1 else "multimodal", "frac=%g" % case["query"]["frac"], *size_labels(spec),
               "excess<=0" if excess <= 0 else ("excess<=1e-9" if excess <= 1e-9 else "excess<=3e-6"))
 
 
@@ -710,7 +744,7 @@ def edge_params(draw, spec):
 
 @st.composite
 def edge_case(draw):
-    spec = draw(st.one_of(point_curve(("linear", "spline")), analytic_curve()))
+    spec = draw(st.one_of(point_curve(("linear", "spline")), analytic_curve(), detail_curve()))
     case = {
         "curve": spec,
         "params": draw(edge_params(spec)),
@@ -909,7 +943,7 @@ def check_edge(case, ctx: Ctx) -> None:
     t1, t2 = case["params"]
     ctx.nt(spacing_ratio(spec) > 2 and not (min(t1, t2) == b0 and max(t1, t2) == b1))
     ctx.label("type=" + spec["type"] + ("/eq" if spec.get("equalize") else ""), "reversed" if t1 > t2 else "forward",
-              "pos=" + case["position"][:-1], case["representation"], "rewrites=%d" % done)
+              "pos=" + case["position"][:-1], case["representation"], "rewrites=%d" % done, *size_labels(spec))
 
 
 # --------------------------------------------------------------------------------------------------
@@ -931,7 +965,8 @@ CELLS = [
          "Line: exact and additive; circle / helix / cubic: symmetric, two-sided bound, additive to 2e-3"),
     Cell("C16/closest/discrete", closest_case(point_curve(("discrete",))), check_closest_discrete, 800, 12000,
          "DiscreteCurve: returned index is a nearest point (near queries; far counted)"),
-    Cell("C16/closest/interpolated", closest_case(point_curve(("linear", "spline"))), check_closest_function, 1000, 20000,
+    Cell("C16/closest/interpolated", closest_case(st.one_of(point_curve(("linear", "spline")), point_curve(("linear", "spline")), detail_curve())),
+         check_closest_function, 1000, 20000,
          "interpolated curves: point at the returned parameter is as close as the dense minimum (near queries)"),
     Cell("C16/closest/analytic", closest_case(analytic_curve()), check_closest_function, 900, 15000,
          "analytic curves, seam of closed circles avoided: as close as the dense minimum (near queries)"),
